@@ -430,3 +430,98 @@ def run_and_judge_direct(b, cfg, scratch, want=('C01', 'C02', 'C03')):
     res['built'] = b
     res['run_dir'] = run_dir
     return res
+
+
+# ------------------------------------------------------------ paired runs
+
+def compare_records(ra, rb, levels, tol=0.0):
+    """differences between two result records at the given levels"""
+    out = []
+    for lv in levels:
+        a, b = ra.get(lv), rb.get(lv)
+        if a is None or b is None:
+            out.append(f'{lv}: missing ({a is None},{b is None})')
+            continue
+        for k in ('assignment', 'bootstrapping_probability',
+                  'runner_up_assignment', 'runner_up_probability',
+                  'directly_assigned'):
+            if a.get(k) != b.get(k):
+                out.append(f'{lv}.{k}: {a.get(k)!r} != {b.get(k)!r}')
+        for k in ('avg_correlation', 'aggregate_probability'):
+            x, y = a.get(k), b.get(k)
+            if x is None or y is None:
+                if x != y:
+                    out.append(f'{lv}.{k}: {x!r} != {y!r}')
+            elif abs(x - y) > tol:
+                out.append(f'{lv}.{k}: {x!r} != {y!r} (tol {tol})')
+        xa, xb = a.get('runner_up_correlation'), b.get(
+            'runner_up_correlation')
+        if (xa is None) != (xb is None):
+            out.append(f'{lv}.runner_up_correlation: {xa!r} != {xb!r}')
+        elif xa is not None:
+            if len(xa) != len(xb) or any(
+                    abs(p - q) > tol for p, q in zip(xa, xb)):
+                out.append(f'{lv}.runner_up_correlation: {xa} != {xb}')
+    return out
+
+
+def compare_results(res_a, res_b, levels, tol=0.0, skip=(), rename=None):
+    """join on cell id (rename: id in b -> id in a); -> list of messages"""
+    by_a = {r['cell_id']: r for r in res_a}
+    out = []
+    for rb in res_b:
+        cid = rb['cell_id']
+        cid_a = rename.get(cid, cid) if rename else cid
+        if cid_a in skip:
+            continue
+        if cid_a not in by_a:
+            out.append(f'cell {cid}: absent from the other run')
+            continue
+        d = compare_records(by_a[cid_a], rb, levels, tol)
+        if d:
+            out.append(f'cell {cid}: ' + '; '.join(d[:4]))
+    return out
+
+
+def fragile_cells(b, config, margin=1e-7):
+    """
+    Cells whose nearest-centroid choice at some node of the (reduced)
+    taxonomy is decided by less than `margin` when all markers are used:
+    a different floating-point evaluation order may legitimately flip them,
+    so relations that perturb floating point skip them (DESIGN D-c).
+    """
+    inp = mm.read_inputs(config['precomputed_stats']['path'],
+                         config['query_markers']['serialized_lookup'],
+                         config['query_path'])
+    reduced = mm.reduce_model(inp.model, flatten=config['flatten'],
+                              drop_level=config['drop_level'])
+    ta = config['type_assignment']
+    exp = mm.expected_markers(reduced, inp.table, inp.query_genes,
+                              inp.ref_genes, ta['min_markers'],
+                              flatten=config['flatten'])
+    if exp['status'] != 'ok':
+        return set(inp.cell_ids)
+    x = mm.log2cpm(inp.query_x) if ta['normalization'] == 'raw' \
+        else inp.query_x
+    ref_idx = {g: j for j, g in enumerate(inp.ref_genes)}
+    frag = set()
+    from mc import domains
+    rh = reduced['hierarchy']
+    for key, lv, node, anc in mm.consulted_parents(reduced):
+        genes = sorted(exp['markers'][key])
+        if key == 'None':
+            kids, child_lv = reduced['nodes'][rh[0]], rh[0]
+        else:
+            kids = reduced['children'][lv][node]
+            child_lv = rh[rh.index(lv) + 1]
+        leaves = []
+        for k in kids:
+            leaves += domains.model_leaves_under(reduced, child_lv, k)
+        for i, cid in enumerate(inp.cell_ids):
+            cv = [x[i, inp.query_genes.index(g)] for g in genes]
+            cs = sorted((mm.pearson(
+                cv, [inp.leaf_mean[leaf][ref_idx[g]] for g in genes])
+                for leaf in leaves), reverse=True)
+            if len(cs) > 1 and cs[0] - cs[1] < margin:
+                frag.add(cid)
+    return frag
